@@ -16,6 +16,7 @@ CONSTANTS
   MaxSteps = 30
   Sample = TRUE
   Variant = "base"
+  SplitAdd = "off"
 INVARIANT ExportDone
 INVARIANT QuotaExact
 INVARIANT CostExact
